@@ -156,3 +156,25 @@ def multipitch_negative_frequency(inp, what=""):
     """util.validate_frequencies applies np.abs even with allow_negatives=False"""
     return inp["task"] == "multipitch" and str(inp.get("fault", "")).startswith("negative_frequency") \
         and "returned a result" in what
+
+
+@region("c10_trailing_newline")
+def c10_trailing_newline(inp, what=""):
+    """C10 / chord.validate_chord_label: a derivable label followed by exactly one final "\\n"
+    (complement of the hypothesis of Mir.C10.validate_iff_grammar_partial, intersected with acceptance)."""
+    from props.c10 import grammar
+    s = inp["label"]
+    return isinstance(s, str) and s.endswith("\n") and grammar(s[:-1]) is not None
+
+
+@region("multipitch_allclose_unequal_timebase")
+def multipitch_allclose_unequal_timebase(inp, what=""):
+    """C18 / multipitch.metrics: the two time bases have the same size and are not equal, yet np.allclose(est, ref)
+    (|est-ref| <= 1e-8 + 1e-5*|ref|) holds, so the estimate is NOT resampled and frames are compared by index.
+    Complement of the hypothesis `timeBasesDiffer rt et = true` of Mir.C18.resampled_when_time_bases_differ_partial."""
+    from fractions import Fraction as Fr
+    rt = [Fr(x) for x in inp["ref_time"]]
+    et = [Fr(x) for x in inp["est_time"]]
+    if len(rt) != len(et) or rt == et:
+        return False
+    return all(abs(e - r) <= Fr(1, 10 ** 8) + Fr(1, 10 ** 5) * abs(r) for e, r in zip(et, rt))
